@@ -353,6 +353,14 @@ EncR(e, A, r) == CASE e[1] = "BA" -> EncBAR(e, A, r) [] e[1] = "RL" -> EncRLR(e,
 KB_Rep(chain, A, r) ==
   IF chain # <<>> /\ DeltaPromoted(chain[1], A, r) /\ SerializeData(chain, A).oc = "ok"
   THEN {"DeltaUint64Promoted"} ELSE {}
+\* BinaryCIFData.serialize with the code-shaped first step: in the recorded class the INT_MIN values go on through the
+\* rest of the chain - a narrow ByteArray / RunLength type then refuses them ("Rejected" instead of altered values)
+SerializeDataR(chain, A, r) ==
+  IF chain = <<>> THEN SerializeData(chain, A)
+  ELSE LET r1 == EncR(chain[1], A, r) IN
+       IF r1.oc # "ok" THEN R(r1.oc, r1.a, chain)
+       ELSE LET s == EncodeChain(Tail(chain), r1.a) IN
+            IF s.oc = "ok" /\ ~IsBytes(s.a) THEN R("Rejected", s.a, <<r1.e>> \o s.e) ELSE R(s.oc, s.a, <<r1.e>> \o s.e)
 \* the representation does not matter, except in the recorded class (and there it does)
 RepFree(chain, A) ==
   chain = <<>> \/ \A r \in RepsOf(A) : (EncR(chain[1], A, r) = Enc(chain[1], A)) = ~DeltaPromoted(chain[1], A, r)
